@@ -127,6 +127,9 @@ fn main() {
                     "exhaust"
                 } else if c % 10 == 3 {
                     "tablewrap"
+                } else if c % 10 == 7 {
+                    // abandoned handshakes in the middle of the history (finding F-C17-1 lives here)
+                    "tablez"
                 } else {
                     "table"
                 }
@@ -145,8 +148,9 @@ fn main() {
         };
         *fam_count.entry(family.to_string()).or_insert(0) += 1;
         let body = catch_unwind(AssertUnwindSafe(|| match family {
-            "table" => table::gen_table_case(&mut crng, &mut tstats, 40, false),
-            "tablewrap" => table::gen_table_case(&mut crng, &mut tstats, 30, true),
+            "table" => table::gen_table_case(&mut crng, &mut tstats, 40, false, false),
+            "tablez" => table::gen_table_case(&mut crng, &mut tstats, 40, false, true),
+            "tablewrap" => table::gen_table_case(&mut crng, &mut tstats, 30, true, false),
             "exhaust" => table::gen_exhaust_case(&mut crng, &mut tstats),
             f => rules::gen_case(f, &mut crng, &mut rstats),
         }));
